@@ -60,6 +60,5 @@ def check_no_shared_state(ctx, rule, module_names, min_classes=1):
             if not hits:
                 ctx.ok(rule, f"{ci.name}", ci, ci.node, sample=False)
     if n < min_classes:
-        from .report import AnalysisError
-        raise AnalysisError(f"{rule}: only {n} classes seen in {module_names}")
+        ctx.defer(f"{rule}: only {n} classes seen in {module_names}")
     return n
